@@ -224,6 +224,9 @@ impl<'a> HashCheck<'a> {
 impl<'a> Visitor for HashCheck<'a> {
     fn visit(&self, b: &Board, depth: usize) -> Vec<(Board, u64)> {
         if let Ok(p) = eng::pos_of(b) {
+            if crate::crumb::enabled() {
+                crate::crumb::set(&["c11-one", "--fen", &p.fen4(), "--seed", &self.rep.seed.to_string()]);
+            }
             self.check(b, &p, depth);
         }
         // successors carry the fold of their own hashes; the explorer compares it with the value
